@@ -255,6 +255,90 @@ harm("C12", "makepowermap_rename_and_temp", "rolling-shutter/app/powermap.go", "
 	}
 	return res, nil""")
 harm("C11", "outcome_threshold_named_temporary", "rolling-shutter/app/app.go", "	_, ok := app.ConfigVoting.Outcome(int(app.LastConfig().Threshold))", "	required := int(app.LastConfig().Threshold)\n	_, ok := app.ConfigVoting.Outcome(required)")
+GN = "rolling-shutter/keyperimpl/gnosis/"
+harm("C19", "trigger_rename_pointer", GN+"newslot.go", "txPointer", "startPointer", True)
+harm("C19", "trigger_rename_eon_row", GN+"newslot.go", "eonStruct", "activeEon", True)
+harm("C11", "batchconfig_rename_candidate", "rolling-shutter/app/app.go", """	bc, err := shutterevents.BatchConfigFromMessage(msg)
+	if err != nil {
+		return makeErrorResponse(fmt.Sprintf("Malformed BatchConfig message: %s", err))
+	}
+
+	if reflect.DeepEqual(*app.LastConfig(), bc) {""", """	proposed, err := shutterevents.BatchConfigFromMessage(msg)
+	if err != nil {
+		return makeErrorResponse(fmt.Sprintf("Malformed BatchConfig message: %s", err))
+	}
+	bc := proposed
+
+	if reflect.DeepEqual(*app.LastConfig(), bc) {""")
+harm("C11", "outcome_rename_index", "rolling-shutter/app/voting.go", """	idx, ok := v.outcomeIndex(numRequiredVotes)
+	if !ok {
+		var n T
+		return n, false
+	}
+	return v.Candidates[idx], true""", """	winner, ok := v.outcomeIndex(numRequiredVotes)
+	if !ok {
+		var n T
+		return n, false
+	}
+	return v.Candidates[winner], true""")
+harm("C11", "maybestarteon_rename_flags", "rolling-shutter/app/app.go", """	success, ok := dkg.SuccessVoting.Outcome(threshold)
+	// dismiss votes for Eon that was voted on successfully already
+	outdatedEon := app.EONCounter > eon
+	if !ok || success || outdatedEon {""", """	succeeded, decided := dkg.SuccessVoting.Outcome(threshold)
+	// dismiss votes for Eon that was voted on successfully already
+	outdatedEon := app.EONCounter > eon
+	if !decided || succeeded || outdatedEon {""")
+harm("C20", "broadcast_rename_message", "rolling-shutter/keyper/eonpkhandler.go", """	msg, err := p2pmsg.NewSignedEonPublicKey(
+		pkh.config.InstanceID,
+		eonPubKey.PublicKey,
+		eonPubKey.ActivationBlock,
+		eonPubKey.KeyperConfigIndex,
+		eonPubKey.Eon,
+		pkh.config.Ethereum.PrivateKey.Key,
+	)
+	if err != nil {
+		return errors.Wrap(err, "error while signing EonPublicKey")
+	}
+
+	err = pkh.messaging.SendMessage(ctx, msg)""", """	signedKey, err := p2pmsg.NewSignedEonPublicKey(
+		pkh.config.InstanceID,
+		eonPubKey.PublicKey,
+		eonPubKey.ActivationBlock,
+		eonPubKey.KeyperConfigIndex,
+		eonPubKey.Eon,
+		pkh.config.Ethereum.PrivateKey.Key,
+	)
+	if err != nil {
+		return errors.Wrap(err, "error while signing EonPublicKey")
+	}
+
+	err = pkh.messaging.SendMessage(ctx, signedKey)""")
+harm("C10", "batchconfigfrommessage_rename_list", "rolling-shutter/keyper/shutterevents/batchconfig.go", "keypers", "members", True)
+harm("C12", "makepowermap_rename_result", "rolling-shutter/app/powermap.go", """	res := make(Powermap)
+	for _, v := range validators {
+		data := v.PubKey.GetEd25519()
+		if data == nil {
+			return res, errors.Errorf("cannot handle key %s", v.PubKey)
+		}
+		pubkey, err := NewValidatorPubkey(data)
+		if err != nil {
+			return res, err
+		}
+		res[pubkey] += v.Power
+	}
+	return res, nil""", """	powers := make(Powermap)
+	for _, v := range validators {
+		data := v.PubKey.GetEd25519()
+		if data == nil {
+			return powers, errors.Errorf("cannot handle key %s", v.PubKey)
+		}
+		pubkey, err := NewValidatorPubkey(data)
+		if err != nil {
+			return powers, err
+		}
+		powers[pubkey] += v.Power
+	}
+	return powers, nil""")
 harm("C09", "rename_vote_histogram", "rolling-shutter/app/voting.go", "numVotes", "tally", True)
 
 def main():
